@@ -157,3 +157,46 @@ def _kopt_step(u, jump, pdp=False):
     later_distinct = u.forall(((zint(t) + 1, N + 1),), lambda t2: POS(b, t2) != POS(b, t))
     u.prove("step.visited_time-is-position", IMPL(later_distinct, out["visited_time"].at(b, POS(b, t)) == t))
     u.canary("step.reward-negated", out["reward"].at(b) == out["cost_bsf"].at(b) - c0)
+
+
+# ---------------------------------------------------------------------------------------------
+# C06: the checker of the ruin-and-repair environment validates the BEST tour it is handed, by walking it
+# ---------------------------------------------------------------------------------------------
+PDPF = "rl4co/envs/routing/pdp/env.py"
+
+
+@unit("pdprr.check.sound", file=PDPF, func="PDPRuinRepairEnv.check_solution_validity", props=("C06",))
+def _(u):
+    from .checkers import carried
+
+    B, H = u.dims("B H")
+    N = 2 * H + 1                                                    # depot + H pickups + H deliveries (delivery of p is p + H)
+    # rec_current / visited_time belong to the CURRENT tour of the state, not to the best one: the verdict must not depend on them
+    td = u.td(B, rec_best=((B, N), "i"), rec_current=((B, N), "i"), visited_time=((B, N), "i"))
+    best = td["rec_best"]
+    u.requires(u.forall((B, N), lambda b, i: AND(best.at(b, i) >= 0, best.at(b, i) < N)))
+    env = u.obj(PDPF, "PDPRuinRepairEnv", device="cpu")
+    POS = z3.Function("pos_along_best", z3.IntSort(), z3.IntSort(), z3.IntSort())       # ghost: t-th node of the walk depot -> best[depot] -> ...
+    u.requires(u.forall((B,), lambda b: POS(b, 0) == 0))
+    unfold = lambda b, t: POS(b, zint(t) + 1) == best.at(b, POS(b, t))
+    if u.mode == "conc":
+        u.requires(u.forall((B, N), lambda b, t: unfold(b, t)))
+
+    def inv(e, i):
+        vt = carried(e, "visited_time", "f", nth=0)
+        pr = carried(e, "pre", "i", nth=0)
+        return [("pre-is-ith-node", u.forall((B,), lambda b: AND(pr.at(b) == POS(b, zint(i)), pr.at(b) >= 0, pr.at(b) < N))),
+                ("pos-unfolds", u.forall((B, (0, zint(i))), lambda b, t: AND(unfold(b, t), POS(b, t) >= 0, POS(b, t) < N))),
+                ("last-write-wins", u.forall((B, (1, zint(i) + 1)), lambda b, t: IMPL(u.forall(((zint(t) + 1, zint(i) + 1),), lambda t2: POS(b, t2) != POS(b, t)), vt.at(b, POS(b, t)) == t)))]
+
+    u.loop(PDPF, "PDPRuinRepairEnv.check_solution_validity", 0,
+           LoopInvariant(inv, name="walk-best-tour", tags=("C06",), facts=lambda e, i: [u.forall((B,), lambda b: unfold(b, i))]))
+    u.run(PDPF, "PDPRuinRepairEnv.check_solution_validity", td, selfobj=env, asserts="record")
+    b, p = u.idx((B,), "b"), u.idx(((1, H + 1),), "p")
+    t1, t2 = u.idx(((1, N + 1),), "t1"), u.idx(((1, N + 1),), "t2")
+    u.asserted("Deliverying without pick-up", b, zint(p) - 1)
+    last = lambda t: u.forall(((zint(t) + 1, N + 1),), lambda t3: POS(b, t3) != POS(b, t))
+    # passing => along the walk of the BEST tour, the (last) visit of every pickup precedes the (last) visit of its delivery
+    u.prove("check.sound.pickup-before-delivery-along-best-tour",
+            IMPL(AND(POS(b, t1) == p, POS(b, t2) == zint(p) + H, last(t1), last(t2)), zint(t1) < zint(t2)), tags=("C06",))
+    u.canary("check.sound.delivery-directly-after-pickup", IMPL(AND(POS(b, t1) == p, POS(b, t2) == zint(p) + H, last(t1), last(t2)), zint(t1) + 1 == zint(t2)))
